@@ -45,6 +45,9 @@ def check_one(ctx, data, kinds, m, chunks, lines, pending, opts='random'):
     ctx.count('warn_on_error_%s' % (opts or {}).get('warn_on_error', 'none'))
     replay = {'stream': data.hex(), 'tokens': kinds, 'max_payload': m, 'chunks': [c.hex() for c in chunks], 'options': opts}
     if err is not None:
+        if err.startswith('SharedResult'):
+            ctx.violation('C04/result-list-shared-between-calls', err, replay)
+            return
         ctx.violation('C04/decoder-raised', 'on_data raised %s' % err, replay)
         return
     lines.append('pydec %d %s' % (m, ','.join(c.hex() or '-' for c in chunks) or '='))
